@@ -1047,4 +1047,12 @@ def run(P, R, tier):
     # user info that stands in for it has
     from . import c03 as _c03
     _c03.blank_ident(P, Remap(R, {'C03.GRD.3': 'C06.GRD.8'}))
+    # shared (round 9): the address a query carries is the announced one (the parser's group move), a service added by a
+    # reload is reported to the module (the merge tells the section), and the data a protocol waits for includes
+    # everything the policy asks for
+    from ..report import Remap as _Remap
+    from . import c12 as _c12, c15 as _c15, c02 as _c02
+    _c12.parser_rules(P, _Remap(R, {'C12.COPY.1': 'C06.COPY.1', 'C12.MPT.2': 'C06.COPY.1', 'C12.MPT.3': 'C06.COPY.1', 'C12.MPT.4': 'C06.COPY.1'}))
+    _c15.merge_details(P, R, 'C06.MPT.5')
+    _c02.required_mask(P, _Remap(R, {'C02.MPT.1': 'C06.MPT.6'}))
     return EXPLANATION, ASSUMPTIONS
